@@ -701,6 +701,20 @@ func (g *guardEngine) discharge(s guardSite) string {
 	}
 	// the index was returned by a search helper (an index of its slice argument, or a negative
 	// constant for "not found") and is tested to be non-negative
+	// the index was returned by strings.Index & co. over the same string and is used only
+	// where it is known to be >= 0: 0 <= r <= len(s) for a bound, r < len(s) for an element
+	// when the needle cannot be empty
+	if call, ok := s.idx.(*ssa.Call); ok {
+		if sc := call.Call.StaticCallee(); sc != nil && (fnPkgPath(sc) == "strings" || fnPkgPath(sc) == "bytes") && strings.Contains(sc.Name(), "Index") && len(call.Call.Args) == 2 && (call.Call.Args[0] == x || g.same(call.Call.Args[0], x)) && g.intMinFrom(call, s.ins.Block(), -1) >= 0 {
+			nonEmptyNeedle := strings.HasSuffix(sc.Name(), "Byte") || strings.HasSuffix(sc.Name(), "Rune")
+			if k, ok := constString(call.Call.Args[1]); ok && k != "" {
+				nonEmptyNeedle = true
+			}
+			if s.idxIsBound || nonEmptyNeedle {
+				return "position returned by " + sc.Name() + " over the same string, used only where it is >= 0"
+			}
+		}
+	}
 	if call, ok := s.idx.(*ssa.Call); ok && !s.idxIsBound {
 		if k, ok := g.indexResultOver(call); ok && k < len(call.Call.Args) && (call.Call.Args[k] == x || g.same(call.Call.Args[k], x)) && g.intMinFrom(call, s.ins.Block(), -1) >= 0 {
 			return "index returned by a search helper over the same slice, used only where it is >= 0"
@@ -1388,6 +1402,8 @@ func (g *guardEngine) intMinFrom(n ssa.Value, b *ssa.BasicBlock, floor int64) in
 				op = token.GTR
 			case token.NEQ:
 				op = token.EQL
+			case token.EQL:
+				op = token.NEQ
 			default:
 				return
 			}
@@ -1398,6 +1414,11 @@ func (g *guardEngine) intMinFrom(n ssa.Value, b *ssa.BasicBlock, floor int64) in
 			m = k
 		case token.GTR:
 			m = k + 1
+		case token.NEQ:
+			// the caller vouches for n >= floor: excluding the floor itself raises the bound
+			if k == floor && min == floor {
+				m = k + 1
+			}
 		}
 		if m > min {
 			min = m
